@@ -36,7 +36,8 @@ RULE = ('one PRNG; a case is a random mesh (ring / 2xk or 3xk grid / random conn
         'ROADM), all-STRICT / all-LOOSE / mixed hops, source/destination repeated in the list, bidirectional flag; '
         '~12 % malformed (unknown names, transceivers inside the list, unknown source/destination) that must raise '
         'ServiceError or be dropped; ~8 % lists with 2-3 unknown LOOSE names at any position (first / between / last) '
-        'mixed with valid STRICT/LOOSE hops, meetable or not.  Non-trivial = some request has a non-empty include list and at least two '
+        'mixed with valid STRICT/LOOSE hops, meetable or not; ~30 % of the batches hold TWINS (same source, destination '
+        'and include nodes, other hop types: all-LOOSE / all-STRICT / mixed) before or after their original.  Non-trivial = some request has a non-empty include list and at least two '
         'simple paths between its end points, or is blocked; ispart cases are always non-trivial.  Include lists '
         'never repeat a node (the code accepts [X, X], a subsequence reading does not: the property is silent).')
 MODEL_SCOPE = ('modelled: correct_json_route_list, compute_constrained_path decision logic, explicit_path (repaired: '
@@ -268,7 +269,45 @@ def gen(rng, tier, widen=False):
                 for i in range(k)]
     if via == 'planning' and any(r['src'] == r['dst'] for r in reqs):
         via = 'dsjctn'       # source = destination is a degenerate request: propagation over [trx] raises IndexError
+    if rng.random() < (0.6 if widen else 0.3):
+        add_twins(rng, mesh, reqs, oneway, via)
     return {'kind': 'route', 'mesh': mesh, 'reqs': reqs, 'via': via}
+
+
+def add_twins(rng, mesh, reqs, oneway, via):
+    """TWINS: requests of one batch with the same source, destination and include nodes but another hop-type list
+    (all-LOOSE / all-STRICT / mixed), in both batch orders: every request is judged on its own, the decision for one
+    must not depend on what else is in the batch (requests_aggregation does not merge them: loose_list differs)"""
+    ok_styles = ('roadms', 'lines', 'along', 'swapped', 'explicit', 'revisit')
+    base = [r for r in reqs if r['inc'] and r['style'] in ok_styles and r['src'][0] == 'T' and r['dst'][0] == 'T']
+    if not base:
+        for _ in range(6):
+            r = gen_request(rng, mesh, len(reqs), allow_bidir=not oneway, malformed_ok=False)
+            if r['inc'] and r['style'] in ok_styles:
+                reqs.append(r)
+                base = [r]
+                break
+    if not base:
+        return
+    b = rng.choice(base)
+    k = len(b['inc'])
+    old = [h for _, h in b['inc']]
+    variants = [[S] * k, [L] * k]
+    if k >= 2:
+        variants.append([S if j % 2 == 0 else L for j in range(k)])
+        variants.append([L if j % 2 == 0 else S for j in range(k)])
+    variants = [v for v in variants if v != old]
+    rng.shuffle(variants)
+    for v in variants[:rng.choice([1, 1, 2, 3])]:
+        t = copy.deepcopy(b)
+        t['id'] = max(r['id'] for r in reqs) + 1
+        t['inc'] = [[it, h] for (it, _), h in zip(b['inc'], v)]
+        t['style'] = 'twin'
+        t['bidir'] = bool(not oneway and rng.random() < 0.3)
+        at = reqs.index(b)
+        where = rng.choice(['before', 'after', 'first', 'last'])
+        pos = at if where == 'before' else at + 1 if where == 'after' else 0 if where == 'first' else len(reqs)
+        reqs.insert(pos, t)
 
 
 # --------------------------------------------------------------------------------------------------------------------
